@@ -52,7 +52,7 @@ inline void show(std::ostream& o, bool v) { o << (v ? "True" : "False"); }
 inline void show(std::ostream& o, int v) { o << v; }
 inline void show(std::ostream& o, long v) { o << v; }
 inline void show(std::ostream& o, long long v) { o << v; }
-inline void show(std::ostream& o, double v) { char b[64]; std::snprintf(b, sizeof b, "%.17g", v); o << b; }
+inline void show(std::ostream& o, double v) { char b[64]; std::snprintf(b, sizeof b, "%.17gf", v); o << b; }
 inline void show(std::ostream& o, float v) { show(o, (double)v); }
 inline void show(std::ostream& o, const std::string& s) {
 	static const char* hex = "0123456789abcdef";
@@ -442,7 +442,7 @@ def canon(v: Any, classes: dict[str, list[str]]) -> str:
 	if t is int:
 		return str(v)
 	if t is float:
-		return '%.17g' % v
+		return '%.17gf' % v   # the suffix keeps 1.0 apart from 1
 	if t is str:
 		return '"' + ''.join(c if 32 <= ord(c) < 127 and c not in '"\\' else '\\x%02x' % ord(c) for c in v) + '"'
 	if t is list:
